@@ -125,7 +125,25 @@ var outDirG = "."
 // block), kept independently of the implementation's tracker
 var ownTracker = map[string]map[uint64]uint64{}
 
+// slashCase: one slash, or a burst on one validator across its committees in the order A, B, A (each committee's budget is its own)
 func slashCase(r *sim.Rng, n *sim.FNode, gen *sim.TxGen) {
+	if r.Chance(30) {
+		vals, _ := n.FSM.GetValidators()
+		for _, v := range vals {
+			if !v.Delegate && len(v.Committees) >= 2 && v.StakedAmount > 100 {
+				a, b := v.Committees[0], v.Committees[1]
+				for _, step := range []struct{ chain, pct uint64 }{{a, r.Pick(5, 10, 14)}, {b, r.Pick(3, 5, 10)}, {a, r.Pick(5, 10, 20)}} {
+					slashOne(r, n, v.Address, step.chain, step.pct, false)
+				}
+				st.TxOutcome["slash-burst-A-B-A"]++
+				return
+			}
+		}
+	}
+	slashOne(r, n, nil, 0, 0, true)
+}
+
+func slashOne(r *sim.Rng, n *sim.FNode, addr []byte, fixedChain, fixedPct uint64, random bool) {
 	var cands []*fsm.Validator
 	vals, _ := n.FSM.GetValidators()
 	for _, v := range vals {
@@ -142,14 +160,26 @@ func slashCase(r *sim.Rng, n *sim.FNode, gen *sim.TxGen) {
 	if r.Chance(8) {
 		chain = 777
 	}
-	if r.Chance(40) {
+	if random && r.Chance(40) {
 		n.FSM.VerifResetSlashTracker()
 		ownTracker = map[string]map[uint64]uint64{}
 	}
 	percent := r.Pick(0, 1, 5, 10, 14, 15, 16, 50, 60, 99, 100, 150)
+	if !random {
+		found := false
+		for _, c := range cands {
+			if string(c.Address) == string(addr) {
+				v, found = c, true
+			}
+		}
+		if !found {
+			return // slashed out by an earlier step of the burst
+		}
+		chain, percent = fixedChain, fixedPct
+	}
 	// sometimes the slash lands in the very block in which the validator's unstaking finishes
 	h0, atUnstakingHeight := n.FSM.Height(), false
-	if v.UnstakingHeight != 0 && r.Chance(60) {
+	if random && v.UnstakingHeight != 0 && r.Chance(60) {
 		n.FSM.VerifSetHeight(v.UnstakingHeight)
 		atUnstakingHeight = true
 		if r.Chance(70) {
